@@ -18,7 +18,7 @@ RULE = ("plaintext lengths: every n in [255700, 256300] (quick: every n in [2559
         "limit and with expansion to 257 KiB, 1 MiB, 64 MiB (thorough 1 GiB); tracemalloc peak during decryption; raw-DEFLATE framing "
         "of the compressor output. non-trivial = distinct (length, class, framing)")
 ASSUMPTIONS = ["incomplete (cut-off) DEFLATE streams have no defined plaintext; 'never silently truncated' is judged for complete streams",
-               "memory bound checked: tracemalloc peak during decrypt <= 4 x limit + size of the token"]
+               "memory bound checked: tracemalloc peak during decrypt <= 4 x limit + 8 x size of the token + 2 MiB"]
 
 
 def gen(cls, n):
@@ -119,7 +119,9 @@ def h_foreign(ctx):
     from joserfc.errors import ExceededSizeError
     vs = []
     toklen = len(tok) if isinstance(tok, str) else sum(len(v) for v in tok.values() if isinstance(v, str))
-    bound = 4 * LIMIT + 3 * toklen + (1 << 20)
+    # memory may scale with the size of the *input* (the token is held as text, octets, ciphertext and compressed plaintext),
+    # never with what the stream expands to
+    bound = 4 * LIMIT + 8 * toklen + (2 << 20)
     what = f"{framing} stream of {len(body)} octets expanding to {n} ({cls}), {form}"
     if n <= LIMIT:
         want = gen(cls, n) if n < 1 << 20 else None
